@@ -7,10 +7,12 @@ Tie A (every tier): generated surface programs and one-violation mutants go thro
   * the CORRESPONDENCE obligation: real outcome class == model outcome (kind by kind, panic site by panic site).
 Tie B (thorough tier): a sample is compiled by real rustc (a throw-away crate under harness/c15tb, one binary per program):
 well-formed programs must build and run, ill-formed ones must fail with a diagnostic pointing into the program text.
-Genuine defects of the real code are listed in KNOWN_FINDINGS.json (FM1..FM12); the class predicates of the ones that are still open
-(FM2, FM8, FM10) are `known_class` below.  FM3 (9212d0a), FM4 (361e42e), FM5 (5862f99), FM6 (dfbe0be), FM11 (3a6dc9a) are repaired: their
-mutants (`malformed-condition`, `use+empty-disjunction`, `agg-bound-arg-missing`, `signature-mismatch`, the clause-condition rebinds inside
-macros) are ordinary ill-formed programs now — rejected with a proper error, kind by kind equal to the model."""
+Genuine defects of the real code are listed in KNOWN_FINDINGS.json (FM1..FM12); the class predicate of the one that is still open
+(FM10) is `known_class` below.  FM2 (4509942), FM3 (9212d0a), FM4 (361e42e), FM5 (5862f99), FM6 (dfbe0be), FM8 (deae510), FM11 (3a6dc9a) are
+repaired: their mutants (`agg-bound-arg`, `malformed-condition`, `use+empty-disjunction`, `agg-bound-arg-missing`, `signature-mismatch`,
+`direct-branching-*`, the clause-condition rebinds inside macros) are ordinary ill-formed programs now — rejected with a proper error, kind by
+kind equal to the model.  The `direct-branching-*` programs (a macro invoking itself twice per level) are still run in a process of their own
+under a generous time limit (`alone`), as a safety net: `hang` is a failure like a panic."""
 import collections, json, os, re, shutil, subprocess, time
 from . import core, tiec, c15gen as G, c15tie as T
 
@@ -19,7 +21,8 @@ THEOREMS = ["illFormed_undeclared_rejected", "illFormed_arity_rejected", "illFor
             "illFormed_parOnlyAttr_rejected", "self_referential_macro_rejected", "direct_recursive_macro_rejected", "mutual_recursive_macro_rejected",
             "expandItem_succeeds_within_budget", "wellFormedCore_accepted", "accepted_is_wellFormed", "desugar_error_rejected", "self_referential_head_macro_rejected", "check_never_panics", "leftover_panics_unreachable", "dependency_cycle_is_one_class", "stratError_is_illFormedStrat",
             "illFormed_aggBound_rejected", "illFormed_signature_rejected", "illFormed_emptyDisj_rejected", "illFormed_macroEmptyDisj_rejected",
-            "hidden_rebind_accepted", "aggBound_shadow_accepted", "emptyDisj_rejected", "emptyDisj_deep_rejected", "emptyDisj_in_macro_rejected", "aggBoundMissing_rejected",
+            "hidden_rebind_accepted", "aggBound_shadow_rejected", "aggBound_shadow_order", "aggBound_local_accepted",
+            "branchingHeadMacro_rejected", "branchingDisjMacro_rejected", "branchingMacro_later_rejected", "emptyDisj_rejected", "emptyDisj_deep_rejected", "emptyDisj_in_macro_rejected", "aggBoundMissing_rejected",
             "aggBoundMissing_first_rejected", "sigMismatch_rejected",
             "emptyMacro_accepted", "latticeTrailingComma_accepted", "emptyLattice_rejected"]
 TRUSTED = ["Lean 4.33.0 kernel", "axioms: propext, Classical.choice, Quot.sound only (audited per theorem)",
@@ -33,9 +36,7 @@ TRUSTED = ["Lean 4.33.0 kernel", "axioms: propext, Classical.choice, Quot.sound 
 
 KNOWN_LINES = {
     "FM1": "a variable rebound through a parenthesised pattern (`let (x) = ..`, `for (x) in ..`, `?Some((x))`, `agg (x) = ..`) is silently accepted: pattern_get_vars has no arm for Pat::Paren",
-    "FM2": "the bound argument of an aggregation may name an already grounded variable (`c(y), agg m = min(y) in a(y)`): accepted, the outer `y` is silently shadowed inside the aggregation",
     "FM7": "the macro panics (`Punctuated::push_punct` in flatten_punctuated) when a macro with an empty body is invoked before a comma inside another macro, a disjunct or a rule head",
-    "FM8": "a self-referential macro that invokes itself twice in a rule head or inside a disjunction is expanded eagerly to depth 100 (2^100 / 2^50 expansions): compilation does not terminate instead of reporting `recursively defined Ascent macro`",
     "FM9": "a `lattice` declaration with a trailing comma is rejected with `empty lattice is not allowed` (`empty_or_trailing()` where `is_empty()` was meant); `relation a(i32,);` is accepted",
     "FM10": "the recursion budget also counts disjunction nesting and non-recursive macro chains: 100 nested parentheses or a chain of 100 macros is reported as `recursively defined Ascent macro`",
 }
@@ -45,9 +46,7 @@ def known_class(m, real, model):
     """the narrow class predicates of the recorded findings: (mutation class, variant) AND the bug-faithful outcome (the model, where a summary exists,
     must predict exactly that outcome)"""
     cls, var = m["class"], m["variant"]
-    if model is not None and model != real and real != "hang": return None
-    if cls == "rebind" and var == "agg-bound-arg" and real == "ok": return "FM2"
-    if cls == "recursive-macro" and var.startswith("direct-branching") and real == "hang": return "FM8"
+    if model is not None and model != real: return None
     if var in ("disjunction-nesting-100", "macro-chain-100") and real == "err recMacro": return "FM10"
     return None
 
@@ -58,10 +57,13 @@ CLEAN = {"undeclared", "arity", "stratification", "ds-on-lattice", "two-ds", "un
          "attribute-on-rule", "macro-use", "agg-bound-arg-missing", "signature-mismatch", "empty-disjunction"}
 
 
+ALONE_LIMIT_S = 30           # per program run in a process of its own (real pipeline and model): they answer in milliseconds since fix deae510
+
+
 def judge(expect, real):
     """the property oracle: None = acceptable"""
     if real.startswith("panic"): return "the macro panicked: " + real
-    if real == "hang": return "macro expansion did not terminate within the time limit"
+    if real == "hang": return f"macro expansion did not terminate within the time limit ({ALONE_LIMIT_S} s for a program run alone)"
     if real == "none": return "no outcome recorded"
     if expect == "err" and not real.startswith("err"): return "an ill-formed program was accepted (macro outcome ok)"
     if expect == "ok" and real != "ok": return "a well-formed program was rejected: " + real
@@ -69,16 +71,15 @@ def judge(expect, real):
 
 
 def build_streams(rng, tier):
-    """-> [case dict]: id, kind, text, summary|None, class, variant, pos, expect, faithful, hazard"""
+    """-> [case dict]: id, kind, text, summary|None, class, variant, pos, expect, faithful, alone"""
     nb = 16 if tier == "quick" else 64
     cases = []
     def add(cid, p, m):
         txt = G.text(p)
         cases.append({"id": cid, "kind": p["kind"], "text": txt, "summary": None if m.get("nosummary") else G.summary(p), "class": m["class"],
-                      "variant": m["variant"], "pos": m["pos"], "expect": m["expect"], "faithful": m["faithful"], "hazard": m["hazard"],
+                      "variant": m["variant"], "pos": m["pos"], "expect": m["expect"], "faithful": m["faithful"], "alone": m["alone"],
                       "rustc_only": m.get("rustc_only")})
     bases = []
-    nhaz = [0]
     for i in range(nb):
         kind = G.KINDS[i % 4]
         feats = {} if i % 8 else {"macros": True, "disj": True}
@@ -89,11 +90,8 @@ def build_streams(rng, tier):
         add(f"w{i}s", src, G.mutant(src, "wellformed", "ascent_source", "-", expect="ok"))
         firsts = []
         for j, m in enumerate(G.all_mutants(p, rng)):
-            if m["hazard"]:
-                nhaz[0] += 1
-                if nhaz[0] > (6 if tier == "quick" else 24): continue       # each costs its time limit
             add(f"w{i}m{j}", m["prog"], m)
-            if m["class"] in CLEAN and m["faithful"] and not m["hazard"]: firsts.append(m)
+            if m["class"] in CLEAN and m["faithful"]: firsts.append(m)
         for j, m in enumerate(G.mut_include(p)):
             if tier == "quick" and j % 3: continue
             add(f"w{i}i{j}", m["prog"], m)
@@ -111,27 +109,31 @@ def build_streams(rng, tier):
         for c in doc.get("cases", []): cases.append(dict(c, id="k_" + c["id"]))
     # malformed token streams (no summary: only "never panics, never hangs")
     rm = rng.fork("malformed")
-    pool = [c for c in cases if not c["hazard"]]
+    pool = list(cases)
     for j in range(1500 if tier == "quick" else 8000):
         c = rm.choice(pool)
         cases.append({"id": f"x{j}", "kind": c["kind"], "text": G.malformed(rm, c["text"]), "summary": None, "class": "malformed-tokens", "variant": "token-edit",
-                      "pos": "-", "expect": "any", "faithful": True, "hazard": False, "rustc_only": None})
+                      "pos": "-", "expect": "any", "faithful": True, "alone": False, "rustc_only": None})
     return bases, cases
 
 
+def is_alone(c):
+    return bool(c.get("alone") or c.get("hazard"))        # `hazard`: the name of the field in replay files written before fix deae510
+
+
 def run_model(cases):
-    """model outcome per case id (hazards: one process each under a time limit — the model expands as eagerly as the real code)"""
-    ids = [c["id"] for c in cases if c["summary"] and not c["hazard"]]
+    """model outcome per case id (`alone`: one process each under the time limit — the model stops at the first error like the real code, so this is a safety net only)"""
+    ids = [c["id"] for c in cases if c["summary"] and not is_alone(c)]
     by = {c["id"]: c for c in cases}
     out = dict(zip(ids, core.run_model(["chk " + by[i]["summary"] for i in ids])))
     import threading
     def one(c):
         try:
-            p = subprocess.run([core.lean_driver()], input="chk " + c["summary"] + "\n", stdout=subprocess.PIPE, stderr=subprocess.DEVNULL, text=True, timeout=4)
+            p = subprocess.run([core.lean_driver()], input="chk " + c["summary"] + "\n", stdout=subprocess.PIPE, stderr=subprocess.DEVNULL, text=True, timeout=ALONE_LIMIT_S)
             out[c["id"]] = p.stdout.strip() or "none"
         except subprocess.TimeoutExpired:
             out[c["id"]] = "hang"
-    ths = [threading.Thread(target=one, args=(c,)) for c in cases if c["summary"] and c["hazard"]]
+    ths = [threading.Thread(target=one, args=(c,)) for c in cases if c["summary"] and is_alone(c)]
     for t in ths: t.start()
     for t in ths: t.join()
     return out
@@ -159,7 +161,9 @@ def check(tier, replay=None):
     else:
         bases, cases = build_streams(rng, tier)
     t0 = time.time()
-    real = T.run_programs(exe, [(c["id"], c["kind"], c["text"]) for c in cases if not c["hazard"]], [(c["id"], c["kind"], c["text"]) for c in cases if c["hazard"]])
+    real = T.run_programs(exe, [(c["id"], c["kind"], c["text"]) for c in cases if not is_alone(c)], [(c["id"], c["kind"], c["text"]) for c in cases if is_alone(c)],
+                          alone_timeout=ALONE_LIMIT_S)
+    r.cov["programs_run_alone_under_time_limit"] = sum(1 for c in cases if is_alone(c))
     r.cov["tie_a_wall_s"] = round(time.time() - t0, 1)
     model_ok = proof.ok or os.path.exists(core.lean_driver())
     t0 = time.time()
@@ -239,7 +243,8 @@ def tie_b(r, rng, cases, real, listed, d):
     good = [c for c in cases if c["class"] in ("wellformed",) and c["kind"] != "ascent_source"]
     pick += [dict(c, want="build") for c in good[:40]] + [dict(c, want="build") for c in cases if c["id"] == "k_f16"]
     pick += [dict(c, want="build") for c in cases if c["variant"] in ("private-macro-names", "private-name-in-clause-condition")][:8]
-    bad = [c for c in cases if c["expect"] == "err" and c["summary"] and not c["hazard"] and c["kind"] != "ascent_source" and c["class"] not in ("malformed-tokens",)]
+    bad = [c for c in cases if c["expect"] == "err" and c["summary"] and c["kind"] != "ascent_source" and c["class"] not in ("malformed-tokens",)
+           and T.classify(real.get(c["id"], "none")) != "hang"]        # (a hang is already a failure of tie A: do not let rustc run into it as well)
     by = collections.defaultdict(list)
     for c in bad: by[(c["class"], c["variant"].split("-")[0])].append(c)
     for k in sorted(by):
